@@ -1,4 +1,5 @@
 CONSTANT Cont <- StdWorld
+CONSTANT AllowDups = TRUE
 CONSTANT MaxLen = 4
 INIT Init
 NEXT Next
@@ -11,6 +12,7 @@ INVARIANT MapIsWinner
 INVARIANT ReadIsProp
 INVARIANT ListIsUnion
 INVARIANT ContainsIsList
+INVARIANT CodeIsIdeal
 INVARIANT DeviationsExplainCode
 INVARIANT CodeSafeModuloD2
 CHECK_DEADLOCK FALSE
